@@ -40,9 +40,9 @@ def _corrupt(evs):
 def plans(tier):
     if tier == "quick":
         return [("d1-1d", 1, 6), ("d1-2d", 1, 12), ("d1-lean3", 2, 1), ("d2-lean1", 1, 8), ("d2-lean2", 1, 24), ("d2-lean3", 1, 32),
-                ("d1-win-q", 4, 3), ("d2-inplace2", 1, 12), ("d1-advindex", 1, 3), ("d1-diag", 2, 1), ("d2-adv-consumer", 1, 3), ("d2-cre7-chain", 64, 2)]
+                ("d1-win-q", 4, 3), ("d2-inplace2", 1, 12), ("d1-advindex", 1, 3), ("d1-diag", 2, 1), ("d2-adv-consumer", 1, 3), ("d2-cre7-chain", 64, 2), ("d3-sq-chain", 2, 12), ("d1-diamond", 2, 12)]
     return [("d1-1d-wide", 3, 1), ("d1-2d", 3, 1), ("d1-lean3", 16, 1), ("d2-lean1", 2, 1), ("d2-lean2", 1, 2), ("d2-lean3", 1, 2),
-            ("d1-win", 32, 1), ("d2-inplace2", 2, 1), ("d1-advindex", 4, 1), ("d1-diag", 8, 1), ("d2-adv-consumer", 2, 1), ("d2-cre7-chain", 64, 1)]
+            ("d1-win", 32, 1), ("d2-inplace2", 2, 1), ("d1-advindex", 4, 1), ("d1-diag", 8, 1), ("d2-adv-consumer", 2, 1), ("d2-cre7-chain", 64, 1), ("d3-sq-chain", 16, 1), ("d1-diamond", 8, 1)]
 
 
 def run(chk):
